@@ -104,9 +104,7 @@ Definition run_ok (o : sopts) (doc : tsdoc) (out : res (list wop)) : bool :=
   match out with
   | Ok ops =>
       comments_ok false (raw_text ops)
-      && (* the reader takes null/undefined/never/unknown for the keywords: schemas with a type of such a
-            name are the known finding reported by the CNames cases *)
-         (if wf_schema o doc && no_keyword_names doc then impl_exact o doc ops else true)
+      && (if wf_schema o doc then impl_exact o doc ops else true)
   | ErrScalar _ _ => negb (wf_schema o doc)          (* an error only when a scalar has no configured type *)
   | Panic _ => negb (wf_schema o doc)                (* no panic on a well-formed schema *)
   end.
